@@ -70,9 +70,11 @@ pub fn script_worker() -> Handler {
                     vars.insert(name.to_string(), inproc::get_var(&sh, name).map(Value::String).unwrap_or(Value::Null));
                 }
             }
+            // "cap": keep at most that many bytes of each stream (sweeps that only look at status / emptiness)
+            let cap = v["cap"].as_u64().map(|c| c as usize).unwrap_or(usize::MAX);
             json!({
-                "o": String::from_utf8_lossy(&r.stdout),
-                "e": String::from_utf8_lossy(&r.stderr),
+                "o": String::from_utf8_lossy(&r.stdout[..r.stdout.len().min(cap)]),
+                "e": String::from_utf8_lossy(&r.stderr[..r.stderr.len().min(cap)]),
                 "st": r.status,
                 "flow": r.flow,
                 "vars": Value::Object(vars),
